@@ -413,15 +413,21 @@ func c09Stress(c *ctx) {
 		so, _ := safeSolar(2000+r%40, 1+r%12, 1+r%28, 23, 30, 0)
 		var targets []interface{}
 		lu := so.GetLunar()
-		switch r % 4 {
+		switch r % 6 {
 		case 0:
 			targets = []interface{}{lu}
 		case 1:
 			targets = []interface{}{lu.GetEightChar()}
 		case 2:
 			targets = []interface{}{calendar.NewLunarYear(2000 + r%40), calendar.NewLunarMonthFromYm(2000+r%40, 1)}
-		default:
+		case 3:
 			targets = []interface{}{so, lu.GetTime()}
+		case 4:
+			targets = []interface{}{calendar.NewSolarWeekFromYmd(2000+r%40, 1+r%12, 1+r%28, r%7), calendar.NewSolarMonthFromYm(2000+r%40, 1+r%12),
+				calendar.NewSolarYearFromYear(2000 + r%40), calendar.NewSolarSeasonFromYm(2000+r%40, 1+r%12), calendar.NewSolarHalfYearFromYm(2000+r%40, 1+r%12)}
+		default:
+			yun := lu.GetEightChar().GetYun(r % 2)
+			targets = []interface{}{lu.GetTao(), lu.GetFoto(), yun, yun.GetDaYun()[1], lu.GetDayNineStar(), lu.GetPrevJieQi()}
 		}
 		start := make(chan bool)
 		var wg2 sync.WaitGroup
